@@ -122,7 +122,7 @@ def run_shard(spec):
             perf = r["perf"]
             for mdesc in r["members"]:
                 families.add(mdesc.split("(")[0])
-            ratio = perf / bound if bound > 0 else (0.0 if perf <= 0 else float("inf"))
+            ratio = perf / bound if bound > 1e-9 else (0.0 if perf <= bound + 1e-7 else 1e9)
             if name not in best or ratio > best[name]:
                 best[name] = ratio
             if perf > bound * (1 + 1e-4) + 1e-7:
